@@ -412,6 +412,12 @@ func NewManager(
 	if height, err := m.store.GetMetadata(ctx, storepkg.DAIncludedHeightKey); err == nil && len(height) == 8 {
 		m.daIncludedHeight.Store(binary.LittleEndian.Uint64(height))
 	}
+	// The chain starts at the initial height: there is no block below it to wait for. Starting at 0 the
+	// inclusion loop would look for block 1 forever and never report any height of a chain whose initial
+	// height is above 1.
+	if genesis.InitialHeight > 1 && m.daIncludedHeight.Load() < genesis.InitialHeight-1 {
+		m.daIncludedHeight.Store(genesis.InitialHeight - 1)
+	}
 
 	// Set the default publishBlock implementation
 	m.publishBlock = m.publishBlockInternal
